@@ -105,16 +105,49 @@ func UnHex(s string) []byte {
 
 // ---------- oracle client ----------
 
+// Oracle multiplexes the line protocol over one executable per model domain (oracle_<domain> in a directory):
+// a domain's process is started at its first request. When a domain's executable is missing — its Lean model no
+// longer builds against the regenerated tables — the copy kept from the last run where it did build
+// (<dir>/last-good/) is used instead and the domain is recorded as stale: the caller then knows that this run
+// compared the implementation with the model of an EARLIER tree. Domains nobody calls are never started, so a
+// model that stopped building disturbs only the checks that use it. A path to a single executable (all domains
+// in one process) is accepted too.
 type Oracle struct {
-	cmd   *exec.Cmd
-	in    *bufio.Writer
-	out   *bufio.Reader
-	Calls int
+	dir    string
+	single *oracleProc
+	procs  map[string]*oracleProc
+	Calls  int
+	Used   map[string]int  // domain -> number of requests
+	Stale  map[string]bool // domains served by a last-good executable
+}
+
+type oracleProc struct {
+	cmd *exec.Cmd
+	in  *bufio.Writer
+	out *bufio.Reader
+}
+
+// oracleDomains: op prefix -> domain, first match wins (same order as lean/Oracle/All.lean).
+var oracleDomains = [][2]string{
+	{"avc.", "avc"},
+	{"rtmp.pkt.", "rtmppkt"}, {"rtmp.dispatch", "rtmppkt"}, {"rtmp.expect.", "rtmppkt"},
+	{"rtmp.", "rtmp"},
+	{"flv.", "flv"},
+	{"amf0.", "amf0"},
+	{"adts.", "aac"}, {"asc.", "aac"}, {"aac.", "aac"},
+	{"kxps.", "kxps"},
+	{"json.", "json"},
+	{"txn.", "txn"},
+	{"http.", "http"},
+	{"logger.", "logger"},
+	{"jose.", "jose"},
+	{"err.", "errors"}, {"c08.", "errors"},
+	{"ws", "ws"},
 }
 
 var traceOracle = os.Getenv("VERIF_TRACE") != ""
 
-func StartOracle(path string) (*Oracle, error) {
+func startProc(path string) (*oracleProc, error) {
 	cmd := exec.Command(path)
 	stdin, err := cmd.StdinPipe()
 	if err != nil {
@@ -128,7 +161,52 @@ func StartOracle(path string) (*Oracle, error) {
 	if err := cmd.Start(); err != nil {
 		return nil, err
 	}
-	return &Oracle{cmd: cmd, in: bufio.NewWriterSize(stdin, 1<<20), out: bufio.NewReaderSize(stdout, 1<<20)}, nil
+	return &oracleProc{cmd: cmd, in: bufio.NewWriterSize(stdin, 1<<20), out: bufio.NewReaderSize(stdout, 1<<20)}, nil
+}
+
+func StartOracle(path string) (*Oracle, error) {
+	o := &Oracle{procs: map[string]*oracleProc{}, Used: map[string]int{}, Stale: map[string]bool{}}
+	st, err := os.Stat(path)
+	if err != nil {
+		return nil, err
+	}
+	if st.IsDir() {
+		o.dir = path
+		return o, nil
+	}
+	o.single, err = startProc(path)
+	return o, err
+}
+
+func (o *Oracle) procFor(op string) *oracleProc {
+	dom := ""
+	for _, d := range oracleDomains {
+		if strings.HasPrefix(op, d[0]) {
+			dom = d[1]
+			break
+		}
+	}
+	if dom == "" {
+		panic("oracle: no domain for op " + op)
+	}
+	o.Used[dom]++
+	if o.single != nil {
+		return o.single
+	}
+	if p, ok := o.procs[dom]; ok {
+		return p
+	}
+	path := filepath.Join(o.dir, "oracle_"+dom)
+	if _, err := os.Stat(path); err != nil {
+		path = filepath.Join(o.dir, "last-good", "oracle_"+dom)
+		o.Stale[dom] = true
+	}
+	p, err := startProc(path)
+	if err != nil {
+		panic(fmt.Sprintf("oracle: cannot start the model executable of domain %s: %v", dom, err))
+	}
+	o.procs[dom] = p
+	return p
 }
 
 // Call sends one request line and returns the reply line.
@@ -140,12 +218,17 @@ func (o *Oracle) Call(parts ...string) string {
 	if traceOracle {
 		fmt.Fprintf(os.Stderr, "oracle<< %s\n", trunc(line, 300))
 	}
-	o.in.WriteString(line)
-	o.in.WriteByte('\n')
-	if err := o.in.Flush(); err != nil {
+	op := line
+	if i := strings.IndexByte(line, ' '); i >= 0 {
+		op = line[:i]
+	}
+	p := o.procFor(op)
+	p.in.WriteString(line)
+	p.in.WriteByte('\n')
+	if err := p.in.Flush(); err != nil {
 		panic(fmt.Sprintf("oracle write: %v", err))
 	}
-	rep, err := o.out.ReadString('\n')
+	rep, err := p.out.ReadString('\n')
 	if err != nil && err != io.EOF {
 		panic(fmt.Sprintf("oracle read: %v", err))
 	}
@@ -156,16 +239,25 @@ func (o *Oracle) Call(parts ...string) string {
 	return strings.TrimRight(rep, "\n")
 }
 
+func (p *oracleProc) close() {
+	p.in.Flush()
+	if c, ok := p.cmd.Stdin.(io.Closer); ok {
+		c.Close()
+	}
+	p.cmd.Process.Kill()
+	p.cmd.Wait()
+}
+
 func (o *Oracle) Close() {
 	if o == nil {
 		return
 	}
-	o.in.Flush()
-	if c, ok := o.cmd.Stdin.(io.Closer); ok {
-		c.Close()
+	if o.single != nil {
+		o.single.close()
 	}
-	o.cmd.Process.Kill()
-	o.cmd.Wait()
+	for _, p := range o.procs {
+		p.close()
+	}
 }
 
 func trunc(s string, n int) string {
@@ -337,6 +429,8 @@ type Result struct {
 	Distinct    int            `json:"distinct_nontrivial"`
 	Traces      int            `json:"traces_validated_against_impl"`
 	OracleCalls int            `json:"oracle_calls"`
+	OracleUsed  map[string]int `json:"oracle_domains_used"`
+	OracleStale []string       `json:"oracle_domains_stale"`
 	Dist        map[string]int `json:"distribution"`
 	Samples     []string       `json:"samples"`
 	Violations  []Violation    `json:"violations"`
@@ -352,6 +446,11 @@ func (c *Ctx) Result() Result {
 		Violations: c.Violations, Notes: c.Notes, WallS: time.Since(c.start).Seconds()}
 	if c.O != nil {
 		r.OracleCalls = c.O.Calls
+		r.OracleUsed = c.O.Used
+		for d := range c.O.Stale {
+			r.OracleStale = append(r.OracleStale, d)
+		}
+		sort.Strings(r.OracleStale)
 	}
 	for _, f := range c.Findings {
 		if f.Property != c.Prop || f.Status != "open" {
